@@ -1,0 +1,50 @@
+//go:build verif
+
+// Contracts for package tms20, read by the verification-condition generator in /verif (gvc).
+// This file contains comments only; it is compiled only with the build tag "verif" and adds no code.
+// float64 is modelled as a real number in these contracts (assumption listed in the evidence).
+package tms20
+
+// axis order: which of the two orders applies is decided by table look-ups, string functions and regular
+// expressions (IsLatLon, axisOrderIsLatLon); they are trusted to return without panicking and without effects.
+//@ func IsLatLon
+//@   prelude tmsaxis
+//@   trusted "EPSG axis table look-up through CRS interface methods, strings and strconv; deterministic, returns a verdict or an error, no panic, no effect"
+//@   ensures (result1 != nil) == crsErr(crs)
+//@   ensures result1 == nil ==> result0 == latlonCRS(crs)
+//@ func axisOrderIsLatLon
+//@   prelude tmsaxis
+//@   trusted "string formatting and regular expressions; deterministic, returns a verdict or an error, no panic, no effect"
+//@   ensures (result1 != nil) == axesErr(orderedAxes)
+//@   ensures result1 == nil ==> result0 == latlonAxes(orderedAxes)
+
+// C15: whether the two ordinates are swapped depends on the tile matrix set only (not on the point, not on the
+// direction of the conversion): ToXYPoint returns the point as it is, or swapped, or an error.
+//@ macro xyErr(tms) = crsErr(tms.CRS) && axesErr(tms.OrderedAxes)
+//@ macro xySwap(tms) = ite(crsErr(tms.CRS), latlonAxes(tms.OrderedAxes), latlonCRS(tms.CRS))
+//@ macro toXY(tms, pt) = ite(xySwap(tms), arr(pt[1], pt[0]), arr(pt[0], pt[1]))
+//@ func ToXYPoint
+//@   prelude tmsaxis
+//@   ensures[C15,C14] (result1 != nil) == xyErr(tms)
+//@   ensures[C15,C14] result1 == nil ==> result0 == toXY(tms, point)
+
+//@ macro tmOf(tms, id) = tms.TileMatrices[id]
+//@ macro mSizeW(tms, id) = round9(real(tmOf(tms, id).MatrixWidth) * real(tmOf(tms, id).TileWidth) * tmOf(tms, id).CellSize)
+//@ macro mSizeH(tms, id) = round9(real(tmOf(tms, id).MatrixHeight) * real(tmOf(tms, id).TileHeight) * tmOf(tms, id).CellSize)
+//@ func (*TileMatrixSet).MatrixSize
+//@   prelude arith
+//@   panics[C14,C15,C06] !isNil(tmOf(tms, tmID).VariableMatrixWidths)
+//@   ensures[C15] width == mSizeW(tms, tmID) && height == mSizeH(tms, tmID)
+
+// C15: the bounding box of a matrix, in x,y order: from the (axis-order corrected) point of origin over the
+// rounded matrix size; which corner the origin is depends on cornerOfOrigin (anything but "bottomLeft" is top left).
+//@ macro originXY(tms, id) = toXY(tms, deref(tmOf(tms, id).PointOfOrigin))
+//@ macro isBottomLeft(tms, id) = tmOf(tms, id).CornerOfOrigin == "bottomLeft"
+//@ macro bboxBL(tms, id) = arr(originXY(tms, id)[0], ite(isBottomLeft(tms, id), originXY(tms, id)[1], round9(originXY(tms, id)[1] - mSizeH(tms, id))))
+//@ macro bboxTR(tms, id) = arr(round9(originXY(tms, id)[0] + mSizeW(tms, id)), ite(isBottomLeft(tms, id), round9(originXY(tms, id)[1] + mSizeH(tms, id)), originXY(tms, id)[1]))
+//@ func (*TileMatrixSet).MatrixBoundingBox
+//@   prelude arith tmsaxis
+//@   requires hasKey(tms.TileMatrices, tmID) ==> !isNil(tmOf(tms, tmID).PointOfOrigin)
+//@   panics[C14,C15,C06] hasKey(tms.TileMatrices, tmID) && !isNil(tmOf(tms, tmID).VariableMatrixWidths)
+//@   ensures[C14,C15] (err != nil) == (!hasKey(tms.TileMatrices, tmID) || xyErr(tms))
+//@   ensures[C15,C03] err == nil ==> bottomLeft == bboxBL(tms, tmID) && topRight == bboxTR(tms, tmID)
